@@ -85,6 +85,15 @@ def absAnnotations : JVal → Option (List (Nat × Str))
   | .arr vs => some (vs.map absAnno)
   | _ => none
 
+/-- the member names of the `switch key` of `decodeSpan`, in source order (compared with `Gen.SpanText.writerKeys`) -/
+def writerKeyNames : List String :=
+  ["traceId", "id", "parentId", "timestamp", "duration", "name", "localEndpoint", "remoteEndpoint", "tags"]
+
+/-- the fastjson look-ups of `parseZipkinJSON`, in source order (compared with `Gen.SpanText.readerGets`) -/
+def readerGetNames : List String :=
+  ["GetStringBytes:kind", "GetStringBytes:name", "GetStringBytes:parentId", "GetObject:tags", "GetInt64:port",
+   "GetArray:annotations", "GetUint64:timestamp", "GetStringBytes:value"]
+
 /-- the `switch key` of `decodeSpan` (and the member names `parseZipkinJSON` asks for) -/
 def absField (m : Str × JVal) : ZField :=
   if m.1 = ascii "traceId" then .traceId (jsStr m.2)
